@@ -9,10 +9,15 @@
 //!  * deviations of a seed: none; every 8-byte word replaced by each of
 //!    {0,1,2,3,7,8,9,2^16,old+1,old-1,2^32-1,2^32,VEC_DECODE_LIMIT,VEC_DECODE_LIMIT+1,
 //!    2^63,u64::MAX}; every byte set to 0xFF; every truncation length; extension by 1..8
-//!    zero bytes; pairs of word replacements (quick: leaf seeds at word distance <= 2 and
-//!    the 12 base transactions at any distance, alphabet {0,1,2,8,9,MAX}; thorough: leaf
-//!    seeds at any distance over the full alphabet, all star transactions at distance
-//!    <= 3);
+//!    zero bytes; pairs of word replacements. Per tier (`Plan::dev_plan`, also written to
+//!    the evidence): quick — leaf seeds and the 12 base transactions get all single
+//!    deviations plus pairs over {0,1,2,8,9,MAX} (leaf: word distance <= 2, base
+//!    transactions: any distance); the other star transactions (one per wire shape) get
+//!    every word × {0,1,2,8,9,old±1,2^32,LIMIT+1,2^63,MAX}, truncation at every word
+//!    boundary and extension by 1 and 8. thorough — every seed (all star transactions,
+//!    Lbig input shapes) gets all single deviations; leaf (L) seeds and base transactions
+//!    all word pairs over the full alphabet minus {2^16, LIMIT}; star transactions pairs
+//!    at distance <= 3 over {0,1,2,8,9,MAX};
 //!  * all byte strings of length <= 6 over {00,01,02,7f,ff}, of length 7 and 8 over
 //!    {00,01,ff}, and all two-word strings over a 22-value word alphabet, fed to every
 //!    decoder.
